@@ -106,6 +106,55 @@ def check(ctx) -> Result:
     okp = len(apps) == 1 and len(emp) == 1 and len(emp[0].args) == 2 and src(apps[0].args[0]) == src(emp[0].args[1])
     res.add(okp, "P-add-ancilla-registered", "Circuit.add", add.site(), add.qualname, "the mode inserted into the parent for a herald is registered as internal with the same index",
             "the ancilla mode inserted into the parent is not registered as internal with the same index", construct=";".join(src(x) for x in apps + emp))
+    # ---- stale snapshots: a value read from <c>.heralds / <c>.n_modes before a loop that mutates <c>
+    #      (through <c>._add_empty_mode) must not be used inside that loop
+    ns = 0
+    for lp in walk_no_nested(add.node):
+        if not isinstance(lp, ast.For):
+            continue
+        muts = {c.func.value.id for b in lp.body for c in ast.walk(b) if isinstance(c, ast.Call) and isinstance(c.func, ast.Attribute) and c.func.attr == "_add_empty_mode" and isinstance(c.func.value, ast.Name) and c.func.value.id != "self"}
+        if not muts:
+            continue
+        inside_defs = {t.id for b in lp.body for a in ast.walk(b) if isinstance(a, (ast.Assign, ast.AugAssign, ast.For)) for t in ast.walk(a.targets[0] if isinstance(a, ast.Assign) else a.target) if isinstance(t, ast.Name)}
+        for X in sorted(muts):
+            snaps = {}
+            for a in walk_no_nested(add.node):
+                if isinstance(a, ast.Assign) and len(a.targets) == 1 and isinstance(a.targets[0], ast.Name) and a.lineno < lp.lineno:
+                    if any(isinstance(x, ast.Attribute) and isinstance(x.value, ast.Name) and x.value.id == X and x.attr in ("heralds", "n_modes", "input_modes", "_internal_modes", "_external_heralds") for x in ast.walk(a.value)):
+                        snaps[a.targets[0].id] = a
+            # later re-definitions before the loop that do not read X any more clear the snapshot
+            used = [(n.id, n) for b in lp.body for n in ast.walk(b) if isinstance(n, ast.Name) and isinstance(n.ctx, ast.Load) and n.id in snaps and n.id not in inside_defs]
+            ns += 1
+            if not used:
+                res.ok("S-no-stale-snapshot", f"Circuit.add:loop over {src(lp.iter)[:40]}", add.site(lp), add.qualname, f"herald/mode data of `{X}` is re-read inside the loop that inserts modes into it")
+            for name, node in used[:3]:
+                res.bad("S-no-stale-snapshot", f"Circuit.add:{name}", add.site(node), add.qualname,
+                        f"`{name}` was read from `{X}` (line {snaps[name].lineno}) before this loop, which inserts modes into `{X}` and thereby shifts its heralds; using the stale copy in later iterations mis-places pass-through modes when several ancillas precede a herald",
+                        construct=src(snaps[name])[:160])
+    res.floor("S mutation loops in add", ns, 1)
+    # ---- herald maps keep declaration order when they are rebuilt (add pairs the i-th input herald with the i-th output herald)
+    no = 0
+    for fi_ in (aem, ctx.func(UTILS, "add_empty_mode_to_circuit_spec")):
+        for n in walk_no_nested(fi_.node):
+            it = None
+            if isinstance(n, ast.For) and ("herald" in src(n.iter) or "_Circuit" in src(n.iter)):
+                it = n.iter
+            elif isinstance(n, (ast.DictComp, ast.ListComp)) and any("herald" in src(g.iter) for g in n.generators):
+                it = n.generators[0].iter
+            if it is None:
+                continue
+            # resolve a local alias of the dictionary
+            base = it
+            if isinstance(base, ast.Call) and isinstance(base.func, ast.Attribute) and base.func.attr in ("items", "keys", "values"):
+                good = True
+            elif isinstance(base, ast.Name):
+                good = True
+            else:
+                good = not (isinstance(base, ast.Call) and src(base.func) in ("sorted", "reversed", "set", "frozenset"))
+            no += 1
+            res.add(good, "P-herald-order-preserved", f"{fi_.qualname}:{src(it)[:50]}", fi_.site(n), fi_.qualname, "rebuilt herald map keeps the declaration order of the old one",
+                    f"herald map is rebuilt iterating `{src(it)[:60]}`: declaration order is lost, but Circuit.add pairs the i-th declared input herald with the i-th declared output herald", construct=src(it)[:120])
+    res.floor("P herald rebuild loops", no, 3)
     # ---- group-free typestate
     groups = []
     for fi in ctx.ix.all_functions():
